@@ -39,6 +39,11 @@ func (gen *generator) createTypeDefs() error {
 	//     (without bodies).
 	gen.new.typeDefs = make(map[string]types.Type)
 	for typeName, old := range gen.old.typeDefs {
+		if _, isAlias := old.Typ().(*ast.NamedType); isAlias {
+			// Type aliases (`%a = type %b`) are resolved below, once the types
+			// they stand for exist.
+			continue
+		}
 		// track is used to identify self-referential named types.
 		track := make(map[string]bool)
 		t, err := newType(typeName, old.Typ(), gen.old.typeDefs, track)
@@ -47,7 +52,46 @@ func (gen *generator) createTypeDefs() error {
 		}
 		gen.new.typeDefs[typeName] = t
 	}
+	// A type alias is the very type it (transitively) names.
+	for typeName, old := range gen.old.typeDefs {
+		if _, isAlias := old.Typ().(*ast.NamedType); !isAlias {
+			continue
+		}
+		target, err := aliasedTypeName(typeName, gen.old.typeDefs)
+		if err != nil {
+			return errors.WithStack(err)
+		}
+		gen.new.typeDefs[typeName] = gen.new.typeDefs[target]
+	}
 	return nil
+}
+
+// aliasedTypeName follows the chain of type aliases starting at typeName and
+// returns the name of the first type definition which is not an alias. An error
+// is returned for (potentially recursive) self-referential type aliases and for
+// aliases of undefined types.
+func aliasedTypeName(typeName string, index map[string]*ast.TypeDef) (string, error) {
+	track := make(map[string]bool)
+	for {
+		def, ok := index[typeName]
+		if !ok {
+			return "", errors.Errorf("unable to locate type definition of named type %q", enc.TypeName(typeName))
+		}
+		named, isAlias := def.Typ().(*ast.NamedType)
+		if !isAlias {
+			return typeName, nil
+		}
+		if track[typeName] {
+			names := make([]string, 0, len(track))
+			for name := range track {
+				names = append(names, enc.TypeName(name))
+			}
+			sort.Strings(names)
+			return "", errors.Errorf("invalid named type; self-referential with type name(s) %s", strings.Join(names, ", "))
+		}
+		track[typeName] = true
+		typeName = getTypeName(localIdent(named.Name()))
+	}
 }
 
 // newType returns a new IR type (without body) based on the given AST type.
@@ -126,6 +170,10 @@ func newType(typeName string, old ast.LlvmNode, index map[string]*ast.TypeDef, t
 func (gen *generator) translateTypeDefs() error {
 	// 2b. Translate AST type definitions to IR.
 	for typeName, old := range gen.old.typeDefs {
+		if _, isAlias := old.Typ().(*ast.NamedType); isAlias {
+			// The body of the aliased type is translated under its own name.
+			continue
+		}
 		t := gen.new.typeDefs[typeName]
 		if _, err := gen.irTypeDef(t, old.Typ()); err != nil {
 			return errors.WithStack(err)
